@@ -515,7 +515,7 @@ theorem journal_agrees (cur : String → Bool) (xs : List Knut.Directive) (gxs :
 
 /-- non-vacuity: two transactions and a price on three days, added out of order: the period and the dates held -/
 example :
-    let t (d : Int) : transaction.Transaction := ⟨⟨0⟩, d, "x", [], []⟩
+    let t (d : Int) : transaction.Transaction := ⟨⟨0⟩, d, "x", [], none⟩
     let g := ([model.Directive.Transaction (t 20), model.Directive.Price ⟨⟨0⟩, 30, ⟨"USD", false⟩, 2, ⟨"CHF", false⟩⟩,
       model.Directive.Transaction (t 10)]).foldl (fun j d => (journal.Builder.Add j d).1) journal.New
     journal.Builder.Period g = ⟨10, 30⟩ ∧
